@@ -554,3 +554,23 @@ package runtime
 //@ requires p != nil
 //@ ensures C10 consumed: !cs_new(p.sem)
 //@ modifies everything
+
+// ---------------------------------------------------------------------------
+// select probing order. When receives are probed before this select's own
+// sends, a receive must not pair with a select-sender on a channel on which
+// THIS select also sends (its own registration would be taken for a peer):
+// the receive pass has to be given the set of this select's send channels.
+// trySelectDir's contract is ASSUMED (its body - a scan calling ChanTrySend /
+// chanTryRecv - is not verified); trySelect is verified against it.
+
+//@ macro issendset(m, ops): forall c uintptr :: (has(m, c) && m[c]) <==> exists i int :: 0 <= i && i < len(ops) && uintptr(ops[i].C) == c && c != 0 && ops[i].Send
+
+//@ func trySelectDir
+//@ trusted
+//@ requires !send && acceptSelectSend ==> issendset(sendChans, ops)
+//@ modifies everything
+
+//@ func trySelect
+//@ props C10
+//@ requires issendset(sendChans, ops)
+//@ modifies everything
